@@ -53,6 +53,19 @@ CHECKS = {
         "Heap accounting is per thread via the harness allocator; a pure compute loop would only trip the watchdog (exit 2).",
         "DESIGN.md section 4 C04",
     ),
+    "C05": (
+        "exhaustive fault enumeration (every single-bit flip and truncation per corpus file) + proptest over must-reject mutant classes; "
+        "oracle = independent strict/lenient decoder on the altered bytes",
+        "fault_enumeration",
+        "For each file of a generated corpus (crate-encoded and independently generated) every single-bit flip in the frame region "
+        "and every truncation length is applied: decoding must end in an error unless the independent strict validator accepts the "
+        "altered bytes, delivered samples must be whole frames equal to what the independent decoder reads from the same bytes, and "
+        "MD5Match requires matching PCM; all 128 one-bit alterations of stored digests must give MD5Mismatch; every must-reject "
+        "class (reserved codes, STREAMINFO disagreement, wasted bits >= depth, order > block, illegal partition order, wrong CRCs, "
+        "block past the declared total, short non-final block) must be refused.",
+        "Per-file exhaustiveness is real; the corpus itself is a sample (seeded). Checksum coincidences are decided by the independent decoder.",
+        "DESIGN.md section 4 C05",
+    ),
 }
 
 NOT_YET = {}
